@@ -374,7 +374,10 @@ package netpoll
 //@     && (forall m *linkBufferNode :: inb(b, m) && m.mode & 1 != 0 ==> cap(m.buf) == 0)
 
 //@ func (*UnsafeLinkBuffer).book
-//@   property C01 C04
+//@   property C01 C02 C04
+//@   note C02: the region handed to the kernel lies behind everything readable or handed out (second ensures), and booking moves no existing
+//@   note node's window: offsets, lengths and arrays of the nodes that existed stay as they were, so no zero-copy result is overwritten by readv
+//@   ensures forall m *linkBufferNode {m.off} :: wasalloc(m) && old(m.own) == b ==> m.off == old(m.off) && sameslice(m.buf, old(m.buf)) && m.mode == old(m.mode) && m.refer == old(m.refer)
 //@   requires wf(b) && nopend(b) && bookSize >= 1 && maxSize >= 1
 //@   ensures booked(b, len(p)) && others(b) && len(p) >= 1 && len(p) <= bookSize && b.length == old(b.length) && rpos(b) == old(rpos(b)) && fpos(b) == old(fpos(b))
 //@   ensures p#arr == b.write.buf#arr && p#base == b.write.buf#base + len(b.write.buf) && b.write.mode & 1 == 0
@@ -596,3 +599,93 @@ package netpoll
 //@   loop 1 invariant b.length == old(b.length) - n && b.mallocSize == old(b.mallocSize) && fpos(b) == old(fpos(b)) && mpos(b) == old(mpos(b))
 //@   loop 1 invariant others(b)
 //@   loop 1 invariant forall m *linkBufferNode {m.kids} :: wasalloc(m) && m.kids > old(m.kids) ==> m.mode & 2 != 0
+
+// ---- WriteBuffer / Append: splice a donor buffer behind the write cursor ----
+// Thin contract: memory safety of the splice and of both release loops (every node.Release meets its precondition: nothing is
+// returned to the pool twice, nothing still referenced is returned), the two counters, the cursors of both buffers, the donor ends up
+// closed, the receiver's own nodes and the donor's read..write nodes are untouched (apart from the two link fields), and pool blocks change
+// state only if they belonged to donor nodes outside read..write.  NOT stated: a representation invariant of the receiver after the
+// splice (between Append and the next Flush the donor's readable bytes lie behind the flush cursor, which wf excludes); what later
+// operations do on an appended-to buffer is therefore not decided by these contracts.
+// the chain of buf from node x onwards is linear and closed (what is left of wflin/wfclosed while the spare tail is being released)
+//@ pred wflinsuf(b *UnsafeLinkBuffer, x *linkBufferNode) = (forall n *linkBufferNode, m *linkBufferNode {n.next, m.ord} ::
+//@     inb(b, n) && inb(b, m) && x.ord <= n.ord && n.ord < m.ord ==> n.next != nil && n.next.own == b && n.next.ord > n.ord && n.next.ord <= m.ord)
+//@     && (forall n *linkBufferNode {n.next} :: inb(b, n) && x.ord <= n.ord && n.next != nil ==> n.next.own == b && n.next.ord > n.ord)
+//@ pred keptown(b *UnsafeLinkBuffer, buf *UnsafeLinkBuffer) = forall m *linkBufferNode {m.own} :: wasalloc(m) && old(m.own) == buf && old(m.ord) >= old(buf.read.ord) && old(m.ord) <= old(buf.write.ord) ==> m.own == buf
+//@ func (*UnsafeLinkBuffer).WriteBuffer
+//@   property C01 C03
+//@   requires wf(b) && (buf != nil ==> wf(buf) && buf != b)
+//@   ensures err == nil
+//@   ensures old(buf == nil || buf.length + buf.mallocSize <= 0) ==> unchanged(UnsafeLinkBuffer.length, UnsafeLinkBuffer.mallocSize, UnsafeLinkBuffer.write, UnsafeLinkBuffer.read, UnsafeLinkBuffer.head, UnsafeLinkBuffer.flush, linkBufferNode.next, linkBufferNode.refer, linkBufferNode.buf, pool)
+//@   ensures old(buf != nil && buf.length + buf.mallocSize > 0) ==> b.length == old(b.length) + old(buf.length) && b.mallocSize == old(b.mallocSize) + old(buf.mallocSize)
+//@   ensures old(buf != nil && buf.length + buf.mallocSize > 0) ==> buf.length == 0 && buf.mallocSize == 0 && buf.head == nil && buf.read == nil && buf.flush == nil && buf.write == nil
+//@   ensures old(buf != nil && buf.length + buf.mallocSize > 0) ==> b.write == old(buf.write) && b.write.next == nil && old(b.write).next == old(buf.read) && b.read == old(b.read) && b.flush == old(b.flush) && b.head == old(b.head)
+//@   ensures forall m *linkBufferNode {m.own} :: wasalloc(m) && old(m.own) == b && m != old(b.write) ==> samenode(m)
+//@   ensures forall m *linkBufferNode {m.own} :: wasalloc(m) && old(m.own) == b ==> m.off == old(m.off) && m.malloc == old(m.malloc) && sameslice(m.buf, old(m.buf)) && m.refer == old(m.refer) && m.mode == old(m.mode)
+//@   ensures old(buf != nil) ==> forall m *linkBufferNode {m.own} :: wasalloc(m) && old(m.own) == buf && old(m.ord) >= old(buf.read.ord) && old(m.ord) <= old(buf.write.ord) ==> m.off == old(m.off) && m.malloc == old(m.malloc) && sameslice(m.buf, old(m.buf)) && m.refer == old(m.refer) && m.mode == old(m.mode) && (m != old(buf.write) ==> m.next == old(m.next))
+//@   ensures forall m *linkBufferNode {m.own} :: wasalloc(m) && old(m.own) != b && old(m.own) != buf ==> samenode(m)
+//@   ensures forall a int :: pool[a] != old(pool[a]) ==> old(buf != nil) && old(blknode[a]) != nil && old(blknode[a].own) == buf && (old(blknode[a].ord) < old(buf.read.ord) || old(blknode[a].ord) > old(buf.write.ord))
+//@   modifies UnsafeLinkBuffer.length, UnsafeLinkBuffer.mallocSize, UnsafeLinkBuffer.write, UnsafeLinkBuffer.read, UnsafeLinkBuffer.head, UnsafeLinkBuffer.flush, b.cachePeek, linkBufferNode.next, linkBufferNode.refer, linkBufferNode.buf, linkBufferNode.origin, linkBufferNode.own, pool
+//@   ghost after call (*linkBufferNode).Release#1: nd.own = nil
+//@   ghost after call (*linkBufferNode).Release#2: nd.own = nil
+//@   loop 1 invariant wflin(buf) && wfclosed(buf) && wfuniq(buf) && wfnode(buf) && wfpool(buf) && b.write == old(buf.write) && buf.read == old(buf.read) && buf.write == old(buf.write) && buf.flush == old(buf.flush)
+//@   loop 1 invariant inb(buf, buf.head) && inb(buf, buf.read) && inb(buf, buf.write) && buf.head.ord <= buf.read.ord && buf.read.ord <= buf.write.ord && (forall m *linkBufferNode :: inb(buf, m) ==> m.ord >= buf.head.ord && m.origin == nil && m.refer >= 1 && old(m.own) == buf && m.ord == old(m.ord))
+//@   loop 1 invariant forall m *linkBufferNode {m.own} :: wasalloc(m) && old(m.own) == b && m != old(b.write) ==> samenode(m)
+//@   loop 1 invariant forall m *linkBufferNode {m.own} :: wasalloc(m) && old(m.own) == b ==> m.off == old(m.off) && m.malloc == old(m.malloc) && sameslice(m.buf, old(m.buf)) && m.refer == old(m.refer) && m.mode == old(m.mode) && m.own == b
+//@   loop 1 invariant forall m *linkBufferNode {m.own} :: inb(buf, m) ==> m.off == old(m.off) && m.malloc == old(m.malloc) && sameslice(m.buf, old(m.buf)) && m.refer == old(m.refer) && m.mode == old(m.mode) && m.next == old(m.next)
+//@   loop 1 invariant forall m *linkBufferNode {m.own} :: wasalloc(m) && old(m.own) != b && old(m.own) != buf ==> samenode(m)
+//@   loop 1 invariant forall a int :: pool[a] != old(pool[a]) ==> old(blknode[a]) != nil && old(blknode[a].own) == buf && old(blknode[a].ord) < old(buf.read.ord)
+//@   loop 1 invariant keptown(b, buf)
+//@   loop 1 invariant old(b.write).next == old(buf.read) && b.length == old(b.length) && b.mallocSize == old(b.mallocSize) && buf.length == old(buf.length) && buf.mallocSize == old(buf.mallocSize) && b.read == old(b.read) && b.flush == old(b.flush) && b.head == old(b.head)
+//@   loop 2 invariant keptown(b, buf) && (buf.write != nil ==> wflinsuf(buf, buf.write))
+//@   loop 2 invariant wfuniq(buf) && wfnode(buf) && wfpool(buf) && b.write == old(buf.write) && buf.read == old(buf.read) && buf.flush == old(buf.flush) && buf.head == old(buf.read)
+//@   loop 2 invariant inb(buf, buf.read) && inb(buf, b.write) && buf.read.ord <= b.write.ord && (forall m *linkBufferNode :: inb(buf, m) ==> m.ord >= buf.read.ord && m.origin == nil && m.refer >= 1 && old(m.own) == buf && m.ord == old(m.ord))
+//@   loop 2 invariant buf.write == nil ==> (forall m *linkBufferNode :: inb(buf, m) ==> m.ord <= b.write.ord)
+//@   loop 2 invariant buf.write != nil ==> inb(buf, buf.write) && buf.write.ord > b.write.ord && (forall m *linkBufferNode :: inb(buf, m) && m.ord > b.write.ord ==> m.ord >= buf.write.ord)
+//@   loop 2 invariant forall m *linkBufferNode {m.own} :: wasalloc(m) && old(m.own) == b && m != old(b.write) ==> samenode(m)
+//@   loop 2 invariant forall m *linkBufferNode {m.own} :: wasalloc(m) && old(m.own) == b ==> m.off == old(m.off) && m.malloc == old(m.malloc) && sameslice(m.buf, old(m.buf)) && m.refer == old(m.refer) && m.mode == old(m.mode) && m.own == b
+//@   loop 2 invariant forall m *linkBufferNode {m.own} :: inb(buf, m) && m != b.write ==> m.off == old(m.off) && m.malloc == old(m.malloc) && sameslice(m.buf, old(m.buf)) && m.refer == old(m.refer) && m.mode == old(m.mode) && m.next == old(m.next)
+//@   loop 2 invariant b.write.off == old(buf.write.off) && b.write.malloc == old(buf.write.malloc) && sameslice(b.write.buf, old(buf.write.buf)) && b.write.refer == old(buf.write.refer) && b.write.mode == old(buf.write.mode)
+//@   loop 2 invariant forall m *linkBufferNode {m.own} :: wasalloc(m) && old(m.own) != b && old(m.own) != buf ==> samenode(m)
+//@   loop 2 invariant forall a int :: pool[a] != old(pool[a]) ==> old(blknode[a]) != nil && old(blknode[a].own) == buf && (old(blknode[a].ord) < old(buf.read.ord) || old(blknode[a].ord) > old(buf.write.ord))
+//@   loop 2 invariant old(b.write).next == old(buf.read) && b.length == old(b.length) && b.mallocSize == old(b.mallocSize) && buf.length == old(buf.length) && buf.mallocSize == old(buf.mallocSize) && b.read == old(b.read) && b.flush == old(b.flush) && b.head == old(b.head)
+
+//@ func (*UnsafeLinkBuffer).Append
+//@   property C01 C03
+//@   requires wf(b) && (typeis(w, *UnsafeLinkBuffer) && as(w, *UnsafeLinkBuffer) != nil ==> wf(as(w, *UnsafeLinkBuffer)) && as(w, *UnsafeLinkBuffer) != b)
+//@   ensures typeis(w, *UnsafeLinkBuffer) ==> err == nil
+//@   ensures !typeis(w, *UnsafeLinkBuffer) ==> err != nil && unchanged(UnsafeLinkBuffer.length, UnsafeLinkBuffer.mallocSize, UnsafeLinkBuffer.write, UnsafeLinkBuffer.read, UnsafeLinkBuffer.head, UnsafeLinkBuffer.flush, linkBufferNode.next, linkBufferNode.refer, linkBufferNode.buf, pool)
+//@   ensures typeis(w, *UnsafeLinkBuffer) && old(as(w, *UnsafeLinkBuffer) != nil && as(w, *UnsafeLinkBuffer).length + as(w, *UnsafeLinkBuffer).mallocSize > 0) ==> b.length == old(b.length) + old(as(w, *UnsafeLinkBuffer).length) && b.mallocSize == old(b.mallocSize) + old(as(w, *UnsafeLinkBuffer).mallocSize) && b.write == old(as(w, *UnsafeLinkBuffer).write) && as(w, *UnsafeLinkBuffer).write == nil && as(w, *UnsafeLinkBuffer).length == 0
+//@   modifies UnsafeLinkBuffer.length, UnsafeLinkBuffer.mallocSize, UnsafeLinkBuffer.write, UnsafeLinkBuffer.read, UnsafeLinkBuffer.head, UnsafeLinkBuffer.flush, b.cachePeek, linkBufferNode.next, linkBufferNode.refer, linkBufferNode.buf, linkBufferNode.origin, linkBufferNode.own, pool
+
+// ---- WriteDirect: insert caller memory into the pending bytes (splits the node holding the insertion point) ----
+// Thin contract: memory safety of the search loop for every remainLen the caller may pass (0 <= remainLen <= MallocLen()), the counters,
+// caller memory is wrapped in a node flagged unmanaged (never returned to the pool, never written: C03), the node holding the insertion
+// point keeps its array but is flagged unmanaged and the rest of its block is handed to exactly one new managed node, nothing is returned
+// to the pool, nodes of other buffers are untouched.  NOT stated: the representation invariant afterwards (two nodes look into one block,
+// which wf excludes - see DESIGN.md, observations), hence what later operations do on such a buffer is not decided by these contracts.
+//@ ghost global wdData *linkBufferNode
+//@ ghost global wdNew *linkBufferNode
+//@ ghost global wdOrigin *linkBufferNode
+//@ func (*UnsafeLinkBuffer).WriteDirect
+//@   property C01 C03
+//@   requires wf(b) && remainLen <= b.mallocSize
+//@   ensures result == nil && samepool()
+//@   ensures old(len(extra) == 0 || remainLen < 0) ==> unchanged(UnsafeLinkBuffer.length, UnsafeLinkBuffer.mallocSize, UnsafeLinkBuffer.write, linkBufferNode.next, linkBufferNode.malloc, linkBufferNode.buf, linkBufferNode.mode, linkBufferNode.off)
+//@   ensures old(len(extra) > 0 && remainLen >= 0) ==> b.mallocSize == old(b.mallocSize) + len(extra) && b.length == old(b.length) && b.read == old(b.read) && b.flush == old(b.flush) && b.head == old(b.head) && b.write != nil && b.write.next == nil
+//@   ensures old(len(extra) > 0 && remainLen >= 0) ==> !wasalloc(wdData) && wdData.mode & 1 == 1 && wdData.buf#arr == extra#arr && wdData.buf#base == extra#base && len(wdData.buf) == 0 && wdData.off == 0 && wdData.malloc == len(extra) && wdData.refer == 1
+//@   note o stands for the node that held the insertion point (the ghost wdOrigin); old(o.f) is its field before the call
+//@   ensures old(len(extra) > 0 && remainLen >= 0) ==> forall o *linkBufferNode :: o == wdOrigin ==> old(o.own) == b && old(o.ord) >= old(b.flush.ord) && old(o.ord) <= old(b.write.ord) && o.next == wdData && sameslice(o.buf, old(o.buf)) && o.off == old(o.off)
+//@   ensures old(len(extra) > 0 && remainLen > 0) ==> wdOrigin.sp + wdOrigin.malloc == old(mpos(b)) - remainLen
+//@   ensures old(len(extra) > 0 && remainLen > 0) ==> !wasalloc(wdNew) && wdNew != wdData && wdData.next == wdNew && wdNew.mode & 1 == 0 && wdOrigin.mode & 1 == 1
+//@   ensures old(len(extra) > 0 && remainLen > 0) ==> forall o *linkBufferNode :: o == wdOrigin ==> wdNew.next == old(o.next) && wdNew.malloc == old(o.malloc)
+//@   ensures old(len(extra) > 0 && remainLen > 0) ==> wdNew.buf#arr == wdOrigin.buf#arr && wdNew.buf#base == wdOrigin.buf#base && wdNew.off == wdOrigin.malloc && len(wdNew.buf) == wdOrigin.malloc && wdNew.refer == 1
+//@   ensures old(len(extra) > 0 && remainLen == 0) ==> forall o *linkBufferNode :: o == wdOrigin ==> wdData.next == old(o.next) && o.mode == old(o.mode) && o.malloc == old(o.malloc)
+//@   ensures forall m *linkBufferNode {m.own} :: wasalloc(m) && m != wdOrigin ==> m.off == old(m.off) && m.malloc == old(m.malloc) && m.mode == old(m.mode) && m.refer == old(m.refer) && m.next == old(m.next) && m.origin == old(m.origin) && sameslice(m.buf, old(m.buf))
+//@   modifies b.mallocSize, b.write, linkBufferNode.next, linkBufferNode.malloc, linkBufferNode.mode, wdData, wdNew, wdOrigin, pool, blknode, cacheown, peekown
+//@   ghost after call newLinkBufferNode#1: wdData = result
+//@   ghost after call newLinkBufferNode#2: wdNew = result
+//@   ghost before store next#1: wdOrigin = origin
+//@   ghost before store next#4: wdOrigin = origin
+//@   loop 1 invariant inb(b, origin) && b.flush.ord <= origin.ord && origin.ord <= b.write.ord && origin.sp + len(origin.buf) + malloc == mpos(b) - remainLen && malloc >= 0 && t == origin.malloc - len(origin.buf)
+//@   loop 2 invariant b.write != nil
